@@ -226,6 +226,19 @@ pub fn check(c: &Case, obs: &mut Obs) -> Result<(), String> {
                     return Err(format!("best_match('*'; {:?}, {:?}) = {:?}: the candidate with the higher PKGREVISION must win", x, y, star.best_match(x, y)));
                 }
             }
+            // the same through a dewey pattern on this base (both candidates must match it)
+            if !base.contains(['<', '>', '{', '}']) {
+                if let Ok(dp) = Pattern::new(&format!("{}>=", base)) {
+                    if dp.matches(n) && dp.matches(&higher) {
+                        for (x, y) in [(n, higher.as_str()), (higher.as_str(), n)] {
+                            obs.verdicts += 1;
+                            if dp.best_match(x, y) != Some(higher.as_str()) {
+                                return Err(format!("best_match('{}>='; {:?}, {:?}) = {:?}: the candidate with the higher PKGREVISION must win", base, x, y, dp.best_match(x, y)));
+                            }
+                        }
+                    }
+                }
+            }
             // a candidate with a longer base and the higher revision (both match '*')
             let longer = format!("zz{}", higher);
             for (x, y) in [(n, longer.as_str()), (longer.as_str(), n)] {
